@@ -68,8 +68,12 @@ def _builder(seed):
                         return s
                 return "x"
             if isinstance(t, T.Integer):
-                n = t.length if getattr(t, "length", None) else 6
-                return rng.choice((0, 1, -1, rng.randint(0, 10 ** min(n, 6) - 1), -rng.randint(0, 10 ** min(n, 6) - 1)))
+                n = getattr(t, "length", None)
+                if not n:
+                    # no digit limit declared: any Python int, also those no binary float can hold
+                    return rng.choice((0, 1, -1, rng.randint(0, 999999), -rng.randint(0, 999999), 2 ** 53 + 1, -(2 ** 53 + 1), 2 ** 63 - 1, 2 ** 64 - 1,
+                                       99999999999999999, 10 ** 18 + 3, rng.randint(10 ** 16, 10 ** 30)))
+                return rng.choice((0, 1, -1, 10 ** n - 1, -(10 ** n - 1), rng.randint(0, 10 ** n - 1), -rng.randint(0, 10 ** n - 1), rng.randint(0, 10 ** min(n, 6) - 1)))
             if isinstance(t, T.Decimal):
                 if t.scale is None:
                     if rng.random() < 0.35:
@@ -80,6 +84,14 @@ def _builder(seed):
                         if "E" not in str(d):
                             return d
                 return super().value(t, rng)
+            if isinstance(t, (T.Time, T.DateTime)) and rng.random() < 0.5:
+                # zones that carry a name - also names the library knows as US abbreviations, on the other side of the world
+                off = datetime.timedelta(hours=rng.randint(-12, 14), minutes=rng.choice((0, 0, 30, 45)))
+                tz = datetime.timezone(off, rng.choice(("EST", "EDT", "CST", "CDT", "MST", "MDT", "PST", "PDT", "GMT", "UTC", "IST", "JST", "X")))
+                if isinstance(t, T.Time):
+                    return datetime.time(rng.randint(0, 23), rng.randint(0, 59), rng.randint(0, 59), rng.randint(0, 999) * 1000, tzinfo=tz)
+                return datetime.datetime(rng.randint(1970, 2037), rng.randint(1, 12), rng.randint(1, 28), rng.randint(0, 23), rng.randint(0, 59),
+                                         rng.randint(0, 59), rng.randint(0, 999) * 1000, tzinfo=tz)
             if isinstance(t, T.Time):
                 tz = datetime.timezone(datetime.timedelta(hours=rng.randint(-12, 14), minutes=rng.choice((0, 0, 30, 45))))
                 return datetime.time(rng.randint(0, 23), rng.randint(0, 59), rng.randint(0, 59), rng.randint(0, 999) * 1000, tzinfo=tz)
